@@ -1,4 +1,5 @@
-(* PV.C18.Refuted — counter-models: one per guard conjunct that exists because the CODE fails. *)
+(* PV.C18.Refuted — counter-models: one per guard conjunct that exists because the CODE fails, and regression
+   Examples of the repaired behaviour for the defects fixed in /repo (the former witnesses). *)
 From Coq Require Import List Bool Arith ZArith NArith.
 From Coq Require Import Permutation.
 From PV Require Import C18.Model C18.Spec C18.Proofs C18.ProofsStep C18.MflModel C18.MflSpec.
@@ -7,78 +8,37 @@ Import ListNotations.
 Definition kP (n : Z) : key := [AS s_PERIPHERALS; AI n].
 Definition kABS_ZO : key := [AS s_ABSORPTION; AS s_ZO].
 
-(* C18-PERIPH-ORDER.  With three peripheral features the search adds PERIPHERALS(1), then (3), then (2):
-   the path is generated by exhaustive_stepwise and its peripheral counts are not increasing. *)
-Theorem periph_increasing_refuted :
-  exists keys p,
-    g_periph keys = false /\
-    In p (fst (exhaustive_stepwise not_supported_combo keys)) /\
-    ~ increasing (map karg1 (filter is_periph p)).
-Proof.
-  exists [kP 1; kP 2; kP 3], [kP 1; kP 3; kP 2]. split; [reflexivity|]. split.
-  - apply stepwise_paths_exact_lemma. split; [discriminate|].
-    change [kP 1; kP 3; kP 2] with ((([] ++ [kP 1]) ++ [kP 3]) ++ [kP 2]).
-    repeat (apply Chain_snoc; [ | cbn; tauto | vm_compute; reflexivity]). constructor.
-  - cbn. intros [_ [H _]]. discriminate.
-Qed.
+(* C18-PERIPH-ORDER, fixed by c2f5172 (formerly PERIPHERALS(1) -> (3) -> (2) was generated): with three peripheral
+   features the only paths are 1, 1-2, 1-2-3, and after PERIPHERALS(1) the count 3 is refused *)
+Example periph_order_fixed :
+  fst (exhaustive_stepwise not_supported_combo [kP 1; kP 2; kP 3]) = [[kP 1]; [kP 1; kP 2]; [kP 1; kP 2; kP 3]] /\
+  allowed not_supported_combo [kP 1; kP 2; kP 3] (kP 3) [kP 1] = false /\
+  doc_allowed not_supported_combo [kP 1; kP 2; kP 3] (kP 3) [kP 1] = false.
+Proof. repeat split; vm_compute; reflexivity. Qed.
 
-(* the same defect at the level of _is_allowed: after PERIPHERALS(1), PERIPHERALS(3) is accepted although
-   the documented rule asks for PERIPHERALS(2) first *)
-Theorem allowed_documented_refuted :
-  exists keys f prev,
-    g_periph_sorted keys = false /\ In f keys /\ incl prev keys /\
-    allowed not_supported_combo keys f prev <> doc_allowed not_supported_combo keys f prev.
-Proof.
-  exists [kP 1; kP 2; kP 3], (kP 3), [kP 1]. split; [reflexivity|]. split; [cbn; tauto|].
-  split; [intros x [<-|[]]; cbn; tauto|]. vm_compute. discriminate.
-Qed.
+(* C18-PERIPH-UNSORTED, fixed by c2f5172 (formerly only PERIPHERALS(1) was built): the listing order no longer matters *)
+Example periph_unsorted_fixed :
+  fst (exhaustive_stepwise not_supported_combo [kP 2; kP 1]) = [[kP 1]; [kP 1; kP 2]] /\
+  allowed not_supported_combo [kP 2; kP 1] (kP 2) [kP 1] = true.
+Proof. split; vm_compute; reflexivity. Qed.
 
-(* C18-PERIPH-UNSORTED: the other conjunct of g_periph_sorted.  With the counts listed 2, 1 the count 2 is refused
-   after PERIPHERALS(1) (it is not listed after a smaller one) although it is the next count; exhaustive_stepwise
-   then only ever builds PERIPHERALS(1). *)
-Theorem allowed_unsorted_refuted :
-  exists keys f prev,
-    g_periph keys = true /\ increasingb (n_all keys) = false /\ In f keys /\ incl prev keys /\
-    allowed not_supported_combo keys f prev = false /\ doc_allowed not_supported_combo keys f prev = true /\
-    fst (exhaustive_stepwise not_supported_combo keys) = [[kP 1]].
-Proof.
-  exists [kP 2; kP 1], (kP 2), [kP 1]. repeat split; try (vm_compute; reflexivity); try (cbn; tauto).
-  intros x [<-|[]]; cbn; tauto.
-Qed.
-
-(* C18-REDUCED-SINGLE-GROUP.  On {ABSORPTION(ZO), PERIPHERALS(1), PERIPHERALS(2)} the second pass of
-   reduced_stepwise meets exactly one same-feature group (ZO;P1 / P1;ZO) and does not merge it: both
-   candidates 3 and 4 have the features {ZO, P1} and both are extended (candidates 6 and 7). *)
+(* C18-REDUCED-SINGLE-GROUP, fixed by e9380e6 (formerly candidates 3 and 4 were both extended, 8 candidates): on
+   {ABSORPTION(ZO), PERIPHERALS(1), PERIPHERALS(2)} the single group (ZO;P1 / P1;ZO) gets its collector and the tree
+   has 7 candidates, the last one below the collector *)
 Definition reduced_witness : list key := [kABS_ZO; kP 1; kP 2].
-Definition created_of (keys : list key) := fst (fst (fst (reduced_stepwise not_supported_combo keys))).
+Definition created_of (keys : list key) := fst (fst (reduced_stepwise not_supported_combo keys)).
+Example reduced_single_group_fixed :
+  length (created_of reduced_witness) = 7 /\
+  snd (fst (reduced_stepwise not_supported_combo reduced_witness)) = [[PCand 3; PCand 4]] /\
+  map (fun x => fst (fst x)) (created_of reduced_witness) =
+    [PRoot; PRoot; PCand 1; PCand 2; PCand 2; PCand 5; PColl 0].
+Proof. repeat split; vm_compute; reflexivity. Qed.
 
-Theorem reduced_merge_refuted :
-  g_reduced_groups not_supported_combo reduced_witness = false /\
-  exists s3 s4 s6 s7 f6 f7,
-    nth_error (created_of reduced_witness) 2 = Some (PCand 1, s3, kP 1) /\
-    nth_error (created_of reduced_witness) 3 = Some (PCand 2, s4, kABS_ZO) /\
-    same_set (s3 ++ [kP 1]) (s4 ++ [kABS_ZO]) = true /\
-    nth_error (created_of reduced_witness) 5 = Some (PCand 3, s6, f6) /\
-    nth_error (created_of reduced_witness) 6 = Some (PCand 4, s7, f7).
-Proof.
-  split; [vm_compute; reflexivity|].
-  exists [kABS_ZO], [kP 1], [kABS_ZO; kP 1], [kP 1; kABS_ZO], (kP 2), (kP 2).
-  repeat split; vm_compute; reflexivity.
-Qed.
-
-(* C18-EXHAUSTIVE-SET-ZIP.  With two categories there is an iteration order of the function set (here: reversed)
-   for which zip(combo, funcs) pairs ABSORPTION(ZO) with ELIMINATION(MM)'s function. *)
+(* C18-EXHAUSTIVE-SET-ZIP, fixed by 16091ea (formerly a set): the two-feature candidate gets its functions in key order *)
 Definition kELIM_MM' : key := [AS s_ELIMINATION; AS s_MM].
-Theorem exhaustive_zip_refuted :
-  exists (keys : list key) (order : list key -> list key),
-    (forall c, Permutation (order c) c) /\
-    all_same_cat kcat atom_eqb keys = false /\
-    exists pairs, In pairs (exhaustive_pairs kcat atom_eqb order keys) /\ ~ Forall (fun kf => fst kf = snd kf) pairs.
-Proof.
-  exists [kABS_ZO; kELIM_MM'], (@rev key). split; [intro c; apply Permutation_sym, Permutation_rev|].
-  split; [reflexivity|]. exists [(kABS_ZO, kELIM_MM'); (kELIM_MM', kABS_ZO)]. split; [vm_compute; tauto|].
-  intro H. inversion H as [|? ? E _]; subst. cbn in E. discriminate.
-Qed.
+Example exhaustive_zip_fixed :
+  In [(kABS_ZO, kABS_ZO); (kELIM_MM', kELIM_MM')] (exhaustive_pairs kcat atom_eqb [kABS_ZO; kELIM_MM']).
+Proof. vm_compute. tauto. Qed.
 
 (* ---------------------------------------------------------------- the search-space algebra *)
 Local Open Scope N_scope.
@@ -102,14 +62,12 @@ Proof.
   exists (dflt_space (MList [s_FO; s_ZO])), (dflt_space MWild). repeat split; vm_compute; reflexivity.
 Qed.
 
-(* C18-EQ-COVARIATE-ONEWAY: COVARIATE(CL,WGT,EXP) == COVARIATE([CL,V],WGT,EXP) but not the other way round *)
-Theorem mfl_eq_covariate_refuted :
-  exists a b, g_cov_symmetric a b = false /\ mf_eq a b = Ok true /\ mf_eq b a = Ok false /\ spaces_equal a b = false.
-Proof.
-  exists (cov_space [mkC [n_CL] [n_WGT] (MList [s_EXP]) n_STAR false]),
-         (cov_space [mkC [n_CL; n_V] [n_WGT] (MList [s_EXP]) n_STAR false]).
-  repeat split; vm_compute; reflexivity.
-Qed.
+(* C18-EQ-COVARIATE-ONEWAY, fixed by 0aa11f5 (formerly a == b was True): both directions are False now *)
+Example eq_covariate_fixed :
+  let a := cov_space [mkC [n_CL] [n_WGT] (MList [s_EXP]) n_STAR false] in
+  let b := cov_space [mkC [n_CL; n_V] [n_WGT] (MList [s_EXP]) n_STAR false] in
+  mf_eq a b = Ok false /\ mf_eq b a = Ok false /\ spaces_equal a b = false /\ mf_eq b b = Ok true.
+Proof. repeat split; vm_compute; reflexivity. Qed.
 
 (* C18-EQ-TUPLES-STRUCTURAL: PERIPHERALS(0);PERIPHERALS(1) vs PERIPHERALS(0..1) *)
 Definition space_periph (pe : list pstmt) : mf :=
@@ -154,15 +112,11 @@ Proof.
     repeat split; vm_compute; reflexivity.
 Qed.
 
-(* C18-TRANSITS-EQ-TUPLE: Transits((1,),DEPOT) == Transits((2,),DEPOT) is the truthy tuple (False, True) *)
-Theorem transits_eq_tuple_refuted :
-  exists t1 t2 r,
-    transits_stmt_eq t1 t2 = Some r /\ r = (false, true) /\ pair_truth r = true /\
-    seteqb pair_eqb (E_stmt [] w_depot t1) (E_stmt [] w_depot t2) = false.
-Proof.
-  exists (mkP (MList [1]) (MList [s_DEPOT])), (mkP (MList [2]) (MList [s_DEPOT])), (false, true).
-  repeat split; vm_compute; reflexivity.
-Qed.
+(* C18-TRANSITS-EQ-TUPLE, fixed by 67f03bc (formerly the truthy tuple (False, True)) *)
+Example transits_eq_fixed :
+  transits_stmt_eq (mkP (MList [1]) (MList [s_DEPOT])) (mkP (MList [2]) (MList [s_DEPOT])) = Some false /\
+  transits_stmt_eq (mkP (MList [1; 2]) (MList [s_DEPOT])) (mkP (MList [2; 1]) (MList [s_DEPOT])) = Some true.
+Proof. split; vm_compute; reflexivity. Qed.
 
 (* C18-LET-BYPASSES-VALIDATION: LET(P,[CL]);COVARIATE(@P,WGT,EXP);COVARIATE(CL,WGT,LIN) is accepted, its printed form is not *)
 Theorem mfl_let_validation_refuted :
@@ -171,14 +125,7 @@ Proof.
   exists [mkV true true [(n_CL, n_WGT)]; mkV false true [(n_CL, n_WGT)]]. repeat split; vm_compute; reflexivity.
 Qed.
 
-(* C18-LNT-PK-INCLUDES-MET: the model has 0 peripherals, the space offers PERIPHERALS(0);PERIPHERALS(1,MET):
-   the PK-only distance still contains a METABOLITE step *)
-Theorem lnt_met_refuted :
-  exists a b,
-    (exists c, In (c, s_MET) (E_pairs [] w_periph_modes b)) /\
-    (exists c, In (c, s_DRUG) (E_pairs [] w_periph_modes a) /\ In (c, s_DRUG) (E_pairs [] w_periph_modes b)) /\
-    lnt_peripherals a b = Ok [LKey [AS s_PERIPHERALS; AI 1; AS s_METABOLITE]].
-Proof.
-  exists [mkP (MList [0]) (MList [s_DRUG])], [mkP (MList [0]) (MList [s_DRUG]); mkP (MList [1]) (MList [s_MET])].
-  split; [exists 1; vm_compute; tauto|]. split; [exists 0; vm_compute; tauto|]. vm_compute. reflexivity.
-Qed.
+(* C18-LNT-PK-INCLUDES-MET, fixed by 78f8b1d (formerly ('PERIPHERALS', 1, 'METABOLITE') was returned) *)
+Example lnt_met_fixed :
+  lnt_peripherals [mkP (MList [0]) (MList [s_DRUG])] [mkP (MList [0]) (MList [s_DRUG]); mkP (MList [1]) (MList [s_MET])] = Ok [].
+Proof. vm_compute. reflexivity. Qed.
